@@ -141,6 +141,9 @@ fn getnext_step_shapes() {
 }
 
 macro_rules! getbulk_step {
+    (@vars 1, $rb:ident, $rn:ident, $kinds:ident) => {
+        vec![SnmpVar { oid: oid(&$rb[0][..$rn[0]]), value: mk_value($kinds[0], 0) }]
+    };
     (@vars 2, $rb:ident, $rn:ident, $kinds:ident) => {
         vec![
             SnmpVar { oid: oid(&$rb[0][..$rn[0]]), value: mk_value($kinds[0], 0) },
@@ -229,7 +232,7 @@ macro_rules! getbulk_step {
                         }
                         assert!(&after.0[..] == &cur[..cur_n], "getbulk_followup_is_last_accepted");
                         kani::cover!(exp_n == $k, "all varbinds yielded");
-                        kani::cover!(exp_marker && exp_n > 0, "some yielded then end marker");
+                        kani::cover!(exp_marker && (exp_n > 0 || $k == 1), "end marker after the yielded items");
                     }
                     _ => panic!("getbulk_result_not_list"),
                 },
@@ -247,9 +250,11 @@ macro_rules! getbulk_step {
         }
     };
 }
-//@ C05,C06 quick | getbulk step: any state, reply of 2 varbinds: any OIDs of 1..3 octets, any of 6 value kinds each; result == reference (yield in-subtree increasing data values in order, end marker at first violation)
+//@ C05,C06 quick | getbulk step: any state, reply of 1 varbind: any OID of 1..3 octets, any of 6 value kinds; result == reference
+getbulk_step!(getbulk_step_1, 1);
+//@ C05,C06 thorough timeout=3000 | getbulk step: any state, reply of 2 varbinds: any OIDs of 1..3 octets, any of 6 value kinds each; result == reference (yield in-subtree increasing data values in order, end marker at first violation)
 getbulk_step!(getbulk_step_2, 2);
-//@ C05,C06 quick | getbulk step: any state, reply of 3 varbinds
+//@ C05,C06 thorough timeout=5400 optional | getbulk step: any state, reply of 3 varbinds
 getbulk_step!(getbulk_step_3, 3);
 
 //@ C05,C06 quick | SnmpOid::precedes(a, b) == arc-wise lexicographic order (harness reference) for ALL a, b of 1..4 content octets (guarantee side of cut S6)
